@@ -197,10 +197,12 @@ func suiteLifecycle(e *vh.Env) {
 	var scens []scen
 	var wg sync.WaitGroup
 	// --- health gating + unhealthy exit
-	hist := [][]int{{500, 500, 200, 200, 500, 500, 500}, {200, 500, 200, 500, 500, 500}, {200, 200, 500, 500, 500}, {500, 200, 500, 200, 500, 500, 500, 500}}
+	hist := [][]int{{500, 500, 200, 200, 500, 500, 500}, {200, 500, 200, 500, 500, 500}, {200, 200, 500, 500, 500}, {500, 200, 500, 200, 500, 500, 500, 500},
+		// failing checks are not only 5xx: a backend that is up but not ready answers 404/403/429 on its health path
+		{404, 404, 200, 403, 404, 429, 403}, {200, 404, 200, 404, 403, 404}}
 	for t := 1; t <= 3; t++ {
 		for hi, h := range hist {
-			if !e.Thorough() && (t+hi)%3 != 0 {
+			if !e.Thorough() && (t+hi)%3 != 0 && !(t == 2 && hi == 4) {
 				continue
 			}
 			t, h := t, h
